@@ -83,4 +83,10 @@ TEXT = {
         "level_text": "All 12 fault kinds (HTTP 400/403/404/429/500/503, reset, truncated body, bit flip, stalled response costing only virtual time, caller cancellation, hook FailSync) are enumerated at every request index for explicit and announce-triggered, plain and discovery, segmented and unsegmented syncs (quick n=3; thorough n<=5 plus all ordered pairs for n=3), plus random cases with retryable client, two addresses and prior syncs. A failed attempt must leave latest-sync unchanged, emit no success and (announce) exactly one error notification; the recovery attempt must succeed, equal the fault-free reference run in latest-sync, store contents and reported blocks, and request exactly the blocks not yet stored. Led to two fix commits (sticky no-path fallback, exhausted address fail-over).",
         "level_note": "Trusted: the world and virtual clock. Faults the client legitimately masks (retry, fail-over) are accepted as success; only FailSync reached in a segmented sync must fail. Pubsub republish paths are outside this world (no libp2p host).",
     },
+    "C06": {
+        "engine": "h26",
+        "technique": "stateful property-based testing (rapid-drawn histories) against a reference model of the statement, on the bubble's virtual clock",
+        "level_text": "Generated histories of 5..40 steps over 1..3 fake sources and up to 40 providers run against a real ProviderCache in a synctest bubble: source content changes (appear, advance, regress, disappear, bulk updates crossing the merge threshold), source failures, Refresh, Refresh cancelled by source i, Refresh issued while another is parked inside a source (completing or cancelled), Get hit/miss/negative, List, time advances around the TTL. After every step the cache is compared with a reference model that keeps, per provider, the records ever delivered and [lo, hi] bounds on the freshest advertisement time (lo over completed operations), exact TTL bounds on the virtual clock, and the remembered-absent state (nil with zero Fetch calls). Found two defects, both fixed.",
+        "level_note": "Trusted: the harness's reference model; where the statement leaves the outcome open (TTL equality, records delivered only by a cancelled refresh) the model accepts either and adopts what it observes through List. Automatic refresh is disabled here (C07).",
+    },
 }
